@@ -10,7 +10,10 @@ Solver queries over the real row builders of mujoco_warp/_src/constraint.py (one
              written (dense / sparse scatter) equals the reference row; inactive constraints add nothing
  contact/*   `_efc_contact_init`: every efc_address >= 0 points at a row of that contact, ndim per cone;
              `_efc_contact_update`: row arguments == MuJoCo's contact rows (pyramidal / elliptic, adhesion)
- dense=sparse relational query between the two specialisations on the same inputs
+ dense = scatter(sparse): both specialisations are proven equal to the SAME reference row (row*/J); the direct relational
+             query between the two specialisations is in C22 (dense=sparse/*)
+Known divergences from MuJoCo have their own named queries (efc_row:degenerate/*, count/both-limits-active,
+row*/invweight(body-welded-to-parent), row/margin(elliptic-friction)).
 """
 
 import z3
@@ -71,6 +74,18 @@ def subst_fix(f, sub, rounds=8):
 HARD_TACTIC = ["simplify", "propagate-values", "ctx-solver-simplify", "smt"]
 
 
+def sqrt_arg(it, s):
+  """if s is a square-root symbol introduced by the interpreter (side axiom  x >= 0 => s >= 0 and s*s == x): x"""
+  if not (is_sym(s) and z3.is_const(s) and str(s).startswith("sqrt!")):
+    return None
+  for ax in it.assumes:
+    if is_sym(ax) and z3.is_implies(ax) and z3.is_and(ax.arg(1)) and ax.arg(1).num_args() == 2:
+      e = ax.arg(1).arg(1)
+      if z3.is_eq(e) and z3.is_app_of(ax.arg(0), z3.Z3_OP_GE) and ax.arg(1).arg(0).num_args() == 2 and ax.arg(1).arg(0).arg(0).eq(s):
+        return e.arg(1) if not e.arg(1).eq(s) else None
+  return None
+
+
 def zero_lemmas(f):
   """TRUE facts about multiplication, instantiated for the products occurring in f: a product with a zero factor is zero;
   a square is non-negative"""
@@ -84,8 +99,12 @@ def zero_lemmas(f):
       fs = [c for c in t.children() if not z3.is_rational_value(c)]
       if len(fs) >= 2:
         acc.append(z3.Implies(z3.Or(*[x == 0 for x in fs]), t == 0))
-      if len(t.children()) == 2 and t.arg(0).eq(t.arg(1)):
-        acc.append(t >= 0)  # a square is non-negative
+      cnt = {}
+      for x in fs:
+        cnt[x.get_id()] = cnt.get(x.get_id(), 0) + 1
+      coef = [c for c in t.children() if z3.is_rational_value(c)]
+      if fs and all(v % 2 == 0 for v in cnt.values()) and all(c.numerator_as_long() >= 0 for c in coef):
+        acc.append(t >= 0)  # a product of squares is non-negative
     if z3.is_app_of(t, z3.Z3_OP_POWER) and z3.is_rational_value(t.arg(1)) and t.arg(1).as_long() == 2:
       acc.append(t >= 0)
     for c in t.children():
@@ -169,14 +188,49 @@ def _portfolio(ctx, bg, name, goal, guard, budget):
   if kind in _BEST:
     plans.sort(key=lambda p: 0 if (p[0], bool(p[1])) == _BEST[kind] else 1)
   r = sess = None
+  sampled = False
   for strat, extra, frac in plans:
     sess = _mk_session(ctx, list(bg) + extra, strat, max(1000, int(budget * frac)))
     r = sess.prove(name, goal, guard)
     if r.status in ("unsat", "sat"):
       _BEST[kind] = (strat, bool(extra))
       r.strategy = strat + ("+lemmas" if extra else "")
-      break
+      return r, sess
+    if not sampled:
+      # counterexample search by concretisation (after the first inconclusive attempt): fix the float inputs (array
+      # reads) to sample values, which makes the query (almost) linear.  Only a `sat` answer is used - it is a genuine
+      # model of the original query, because constraints were only added.
+      sampled = True
+      for seed in range(3):
+        fix = sample_inputs([core.zbool(goal), core.zbool(guard)] + [core.zbool(b) for b in bg], seed)
+        s2 = _mk_session(ctx, list(bg) + fix, "smt", max(1000, int(budget * 0.1)))
+        r2 = s2.prove(name, goal, guard)
+        if r2.status == "sat":
+          r2.strategy = "sampled-inputs"
+          return r2, s2
   return r, sess
+
+
+def sample_inputs(fs, seed):
+  """equalities fixing every real-valued array read occurring in fs to a small rational (deterministic in seed)"""
+  import random
+
+  rng = random.Random(1234 + seed)
+  vals = ["1/2", "-1/2", "1/3", "2/3", "-2/3", "3/4", "-3/4", "1", "-1", "5/4", "3/2", "-4/3", "1/4", "2"]
+  seen, out = set(), []
+
+  def walk(t):
+    if t.get_id() in seen:
+      return
+    seen.add(t.get_id())
+    if z3.is_select(t) and t.sort() == z3.RealSort() and z3.is_const(t.arg(0)):
+      out.append(t == z3.RealVal(rng.choice(vals)))
+    for c in t.children():
+      walk(c)
+
+  for f in fs:
+    walk(f)
+  return out
 
 
 def robust_replay(ctx, bg, goal, guard, nice, base):
@@ -185,17 +239,19 @@ def robust_replay(ctx, bg, goal, guard, nice, base):
   the real kernel; the verdict of the query is not affected (the original model is replayed if no such model exists)."""
 
   def rp(model):
-    if nice is not None and base is not None:
-      try:
-        s2 = _mk_session(ctx, bg, "smt", ctx.timeout_ms)
-        r = s2.prove("witness", goal, And(guard, nice))
-        if r.status == "sat":
-          ok, path = base(r.model)
-          if ok:
-            return ok, path
-      except Exception:
-        pass
-    return base(model)
+    ok, path = base(model)
+    if ok or nice is None:
+      return ok, path
+    try:
+      s2 = _mk_session(ctx, bg, "smt", ctx.timeout_ms)
+      r = s2.prove("witness", goal, And(guard, nice))
+      if r.status == "sat":
+        ok2, path2 = base(r.model)
+        if ok2:
+          return ok2, path2
+    except Exception:
+      pass
+    return ok, path
 
   return rp
 
@@ -388,6 +444,10 @@ class Builder:
 
   def replay(self, name, what, extra=None):
     env = {"builder": self.name, "spec": list(self.spec), "what": what, "U": self.U}
+    if what in ("J", "vel"):
+      # the Jacobian contracts are uninterpreted in the solver model (its cdof / com arrays are arbitrary, often zero):
+      # also try re-drawn float inputs, keeping the model's integers; these goals do not depend on solver parameters
+      env["randomize_floats"] = 3
     env.update(extra or {})
     return lib.make_replay(self.ctx, self.kt, self.loc, name, "goal", goal="checks.c05:goal_builder", env=env)
 
@@ -415,7 +475,7 @@ def goal_builder(spec, pre, post):
     want = 2
   else:
     want = len(exp["rows"]) if exp["act"] else 0
-  if got_rows != want or got_cnt != want:
+  if (got_rows != want or got_cnt != want) and e["what"] in ("rows", "count"):
     bad.append(f"thread allocates {got_rows} rows ({cnt} += {got_cnt}), MuJoCo: {want}")
   if exp["act"] and not exp.get("both") and e["what"] != "count":
     e0 = int(pre["nefc_out"][w])
@@ -436,8 +496,15 @@ def goal_builder(spec, pre, post):
       else:
         J = post["efc_J_out"][w, er, :nv]
       Jref = np.array([float(rf.jsum(exp["J"](r, c))) for c in range(nv)])
-      if not np.allclose(J, Jref, rtol=2e-3, atol=1e-5):
+      if e["what"] in ("rows", "J") and not np.allclose(J, Jref, rtol=2e-3, atol=1e-5):
         bad.append(f"row {er} Jacobian {J} vs MuJoCo reference {Jref}")
+      if e["what"] == "vel":
+        # the C22 statement: efc.vel == (row as written) . qvel
+        vw = float(sum(float(J[c]) * float(pre["qvel_in"][w, c]) for c in range(nv)))
+        if not lib.approx(post["efc_vel_out"][w, er], vw, rtol=5e-3, atol=1e-4):
+          bad.append(f"row {er} efc.vel = {post['efc_vel_out'][w, er]} vs written row . qvel = {vw}")
+      if e["what"] in ("J", "vel"):
+        continue
       vel = float(sum(Jref[c] * float(pre["qvel_in"][w, c]) for c in range(nv)))
       full = rf.ref_row((flags & rf.REFSAFE_BIT) == 0, ts, row["pos_aref"], row["pos_imp"], row["invweight"], row["solref"], row["solimp"], row["margin"], vel, row["frictionloss"], row["type"], row["id"])
       flds = ["type", "id", "pos", "margin", "vel", "frictionloss", "D"] + (["aref"] if row.get("aref_extra", 0.0) is not None else [])
@@ -449,7 +516,17 @@ def goal_builder(spec, pre, post):
   return (not bad), "; ".join(bad) or "rows agree with the reference"
 
 
-def check_rows(B, exp, w, nv, only_rows=None, common=True):
+def _row_goals_subset(B, exp, w, nv, r, g, a, row, er, rp, G, bg, names, tag, c, only_goals, sess):
+  """a subset of the per-row obligations (used by C22: emitted + vel=J*qvel)"""
+  ctx, kt = B.ctx, B.kt
+  if "emitted" in only_goals:
+    ctx.prove(sess, f"row{r}/emitted", And(g, cmp("==", a["efcid"], er), cmp("==", a["worldid"], w)), G, names=names, replay=rp, desc=f"{tag}: row {r} of an active fitting constraint is not assembled at nefc0+{r}")
+  if "vel=J*qvel" in only_goals:
+    velw = B.row_dot_qvel(w, er, nv)
+    prove_hard(ctx, bg, f"row{r}/vel=J*qvel", cmp("==", a["vel"], velw), And(G, cmp("<=", nv, B.U)), exp.get("cases"), And(G, cmp("<=", nv, B.U)), path=g, cases_first=bool(exp.get("cases_first")), names=names, replay=B.replay(f"row{r}/vel", "vel"), desc=f"{tag}: row {r}: efc.vel differs from (Jacobian row written by the same thread) * qvel")
+
+
+def check_rows(B, exp, w, nv, only_rows=None, common=True, only_goals=None):
   """the obligations shared by all builders.  exp: expected rows of this thread (ref_c05.expected_*)"""
   ctx, kt = B.ctx, B.kt
   nrows = len(exp["rows"])
@@ -457,9 +534,19 @@ def check_rows(B, exp, w, nv, only_rows=None, common=True):
   for text, cond in exp["pre"]:
     ctx.assume(text)
     bg.append(core.zbool(cond))
+  # arrays indexed by dof are sized by nv (qvel; dense efc.J columns)
+  ctx.assume("qvel (and the dense efc.J) have at least nv columns")
+  bg.append(core.zbool(cmp("<=", nv, kt.cell("qvel_in").shape[1])))
+  if not B.is_sparse:
+    bg.append(core.zbool(cmp("<=", nv, kt.cell("efc_J_out").shape[2])))
   act, fits = exp["act"], B.fits(nrows)
   sess = ctx.session(bg)
-  ctx.reach(sess, "twin:active-and-fitting", And(act, fits))
+  # reachability twin without the square-root side axioms: each of them only defines a fresh symbol (x >= 0 => s >= 0 and
+  # s*s == x is satisfiable for every x), so they cannot make the preconditions vacuous; with them the model search is
+  # nonlinear and may time out
+  side_ids = {core.zbool(x).get_id() for x in kt.it.assumes if "sqrt!" in core.zbool(x).sexpr()}
+  bg_ns = [b for b in bg if not (is_sym(b) and b.get_id() in side_ids)]
+  ctx.reach(ctx.session(bg_ns), "twin:active-and-fitting", And(act, fits))
   names = {"w": w, "nefc0": B.e0, "njmax": B.njmax, "nnz0": B.a0, "njmax_nnz": B.nnzmax}
   tag = f"{B.name}{tuple(B.spec)}"
   # counters
@@ -500,14 +587,22 @@ def check_rows(B, exp, w, nv, only_rows=None, common=True):
       continue
     er = arith("+", B.e0, r)
     rp = B.replay(f"row{r}", "rows")
+    want_goal = lambda nm: only_goals is None or nm in only_goals
+    if only_goals is not None:
+      _row_goals_subset(B, exp, w, nv, r, g, a, row, er, rp, G, bg_ns, names, tag, c=z3.Int("c"), only_goals=only_goals, sess=sess)
+      continue
     ctx.prove(sess, f"row{r}/emitted", And(g, cmp("==", a["efcid"], er), cmp("==", a["worldid"], w)), G, names=names, replay=rp, desc=f"{tag}: row {r} of an active fitting constraint is not assembled at nefc0+{r}")
     ctx.prove(sess, f"row{r}/emitted-only-if-active", Implies(g, Or(act, exp.get("both", False))), True, names=names, replay=rp, desc=f"{tag}: a row is assembled for an inactive constraint")
-    PH = lambda nm, goal, txt, guard=None, hard=False, nice=nice_all: prove_hard(ctx, bg, nm, goal, G if guard is None else guard, exp.get("cases"), And(G, cmp("<=", nv, B.U)), path=g, cases_first=hard and bool(exp.get("cases_first")), nice=nice, names=names, replay=rp, desc=f"{tag}: row {r}: {txt}")
+    PH = lambda nm, goal, txt, guard=None, hard=False, nice=nice_all: prove_hard(ctx, bg_ns, nm, goal, G if guard is None else guard, exp.get("cases"), And(G, cmp("<=", nv, B.U)), path=g, cases_first=(hard or bool(exp.get("cases_first_all"))) and bool(exp.get("cases_first")), nice=nice, names=names, replay=rp, desc=f"{tag}: row {r}: {txt}")
     for f in ("pos_aref", "pos_imp", "invweight", "margin", "frictionloss", "type", "id"):
       if f == "pos_imp" and "pos_imp_norm_of" in row:
         # multi-row constraint: the impedance argument is the Euclidean norm of the rows' positions (each proven equal to MuJoCo's)
         sq = rf.vsum([arith("*", B.rows[j][1]["pos_aref"], B.rows[j][1]["pos_aref"]) for j in row["pos_imp_norm_of"]])
         goal = And(cmp(">=", a[f], 0.0), cmp("==", arith("*", a[f], a[f]), sq))
+        xarg = sqrt_arg(kt.it, a[f])
+        if xarg is not None:
+          # the argument IS an interpreter square root sqrt(x) (s >= 0, s*s == x): compare the radicand
+          goal = cmp("==", xarg, sq)
         # needs only the side axioms of the square roots (fewer assumptions = stronger statement, much smaller query)
         side = [core.zbool(x) for x in kt.it.assumes]
         prove_hard(ctx, side, f"row{r}/{f}", goal, g, None, True, names=names, replay=rp, desc=f"{tag}: row {r}: impedance argument is not the norm of the constraint's position rows")
@@ -535,7 +630,11 @@ def check_rows(B, exp, w, nv, only_rows=None, common=True):
       nnz, adr = kt.post("efc_J_rownnz_out", w, er), kt.post("efc_J_rowadr_out", w, er)
       goals.append(("csr-block", And(cmp(">=", nnz, 0), cmp("<=", nnz, B.U), cmp(">=", adr, B.a0), cmp("<=", arith("+", adr, nnz), arith("+", B.a0, B.nn))), G, "CSR row lies outside the non-zero block this thread allocated"))
     for gn, goal, guard, txt in goals:
-      prove_hard(ctx, bg, f"row{r}/{gn}", goal, guard, exp.get("cases"), And(G, cmp("<=", nv, B.U)), path=g, cases_first=bool(exp.get("cases_first")), nice=nice_all, names=dict(names, c=c), replay=B.replay(f"row{r}/{gn}", "rows"), desc=f"{tag}: row {r}: {txt}")
+      cs = exp.get("cases")
+      if gn == "J" and cs and exp.get("cases_first"):
+        # also enumerate the column: every Jacobian contract application then has concrete dof arguments
+        cs = [(f"{n}/c{v}", sb + [(c, v)], cg) for n, sb, cg in cs for v in range(B.U)]
+      prove_hard(ctx, bg_ns, f"row{r}/{gn}", goal, guard, cs, And(guard, cmp("<=", nv, B.U)), path=g, cases_first=bool(exp.get("cases_first")), nice=nice_all, names=dict(names, c=c), replay=B.replay(f"row{r}/{gn}", {"J": "J", "vel=J*qvel": "vel"}.get(gn, "rows")), desc=f"{tag}: row {r}: {txt}")
     # final state of the row = what _efc_row stored (+ the documented correction)
     for f in ("type", "id", "pos", "margin", "vel", "frictionloss", "D"):
       src = {"type": a["type"], "id": a["id"], "pos": arith("+", a["pos_aref"], a["margin"]), "margin": a["margin"], "vel": a["vel"], "frictionloss": a["frictionloss"], "D": a["D!"]}[f]
@@ -689,22 +788,49 @@ def unit_contact_update(elliptic, flg_adhesion):
     tag = f"_efc_contact_update({'elliptic' if elliptic else 'pyramidal'}, adhesion={flg_adhesion})"
     names = {"conid": conid, "dimid": dimid, "condim": condim}
     env = {"elliptic": elliptic, "adhesion": flg_adhesion}
-    rp = lambda nm, fields: lib.make_replay(ctx, kt, loc, nm, "goal", goal="checks.c05:goal_contact_update", env=dict(env, fields=fields))
+    # well-conditioned witnesses for replays (see robust_replay): regular solver parameters, moderate magnitudes
+    ts = kt.pre("opt_timestep", arith("%", exp["worldid"], kt.cell("opt_timestep").shape[0]))
+    isq = kt.pre("opt_impratio_invsqrt", arith("%", exp["worldid"], kt.cell("opt_impratio_invsqrt").shape[0]))
+    sr_, si_, srf_ = R.rdv("solref_in", conid), R.rdv("solimp_in", conid), R.rdv("solreffriction_in", conid)
+    g1_, g2_ = kt.pre("geom_in", conid, k=0), kt.pre("geom_in", conid, k=1)
+    wmb = arith("%", exp["worldid"], kt.cell("body_invweight0").shape[0])
+    iws = [kt.pre("body_invweight0", wmb, kt.pre("geom_bodyid", gg), k=0) for gg in (g1_, g2_)]
+    posv = arith("-", kt.pre("dist_in", conid), kt.pre("includemargin_in", conid))
+    nice = And(
+      ts >= 0.001, ts <= 0.01, isq >= 0.5, isq <= 1.0, sr_[0] >= 0.01, sr_[0] <= 0.05, sr_[1] >= 0.5, sr_[1] <= 1.0,
+      si_[0] >= 0.5, si_[0] <= si_[1], si_[1] <= 0.99, si_[2] >= 0.01, si_[3] >= 0.1, si_[3] <= 0.9, si_[4] == 1.0,
+      *[And(x >= 0.3, x <= 2.0) for x in fri], *[And(x >= 0.3, x <= 3.0) for x in iws], posv <= -0.001, posv >= -0.05,
+      kt.pre("includemargin_in", conid) >= 0.0, kt.pre("includemargin_in", conid) <= 0.05, *[And(x >= 0.02, x <= 1.0) for x in srf_],
+    )
+
+    def wit(x, y):
+      if (is_sym(x) and x.sort() == z3.RealSort()) or (is_sym(y) and y.sort() == z3.RealSort()):
+        d = arith("-", x, y)
+        return And(nice, Or(cmp(">=", d, 0.05), cmp("<=", d, -0.05)))
+      return nice
+
+    base_rp = lambda nm, fields: lib.make_replay(ctx, kt, loc, nm, "goal", goal="checks.c05:goal_contact_update", env=dict(env, fields=fields))
+    rp = lambda nm, fields: base_rp(nm, fields)
     allf = ["type", "id", "pos", "margin", "D", "aref", "vel"]
     ctx.prove(sess, "emitted-iff-active", g == core.zbool(act), True, names=names, replay=rp("emitted", allf), desc=f"{tag}: a row is assembled although the contact dimension has no address / is beyond the cone's rows, or an addressed row is skipped")
     wr = Or(*[x.guard for x in kt.it.accesses if x.kind.startswith(("W", "A"))])
     ctx.prove(sess, "inactive-writes-nothing", Not(wr), Not(act), names=names, replay=rp("inactive", allf), desc=f"{tag}: thread without an assembled row writes to Data")
     ctx.prove(sess, "row/efcid+world", And(cmp("==", a["efcid"], exp["efcid"]), cmp("==", a["worldid"], exp["worldid"])), act, names=names, replay=rp("where", allf), desc=f"{tag}: row written to another (world, row) than contact.efc_address / contact.worldid")
     for f, flds in (("pos_aref", ["pos", "aref"]), ("pos_imp", ["D", "aref"]), ("invweight", ["D"]), ("type", ["type"]), ("id", ["id"]), ("frictionloss", ["D"])):
-      ctx.prove(sess, f"row/{f}", cmp("==", a[f], row[f]), act, names=names, replay=rp(f, flds), desc=f"{tag}: {f} handed to _efc_row differs from MuJoCo's contact row")
+      gl = cmp("==", a[f], row[f])
+      ctx.prove(sess, f"row/{f}", gl, act, names=names, replay=robust_replay(ctx, bg, core.zbool(gl), act, wit(a[f], row[f]), base_rp(f, flds)), desc=f"{tag}: {f} handed to _efc_row differs from MuJoCo's contact row")
     if elliptic:
       ctx.prove(sess, "row/margin(normal)", cmp("==", a["margin"], row["margin"]), And(act, Not(row["friction_row"])), names=names, replay=rp("margin", ["margin", "pos"]), desc=f"{tag}: wrong margin on the normal row")
       ctx.reach(sess, "twin:elliptic-friction-row-with-margin", And(act, row["friction_row"], cmp("!=", row["margin_mjw"], 0.0)))
       ctx.prove(sess, "row/margin(elliptic-friction)", cmp("==", a["margin"], row["margin"]), And(act, row["friction_row"]), names=names, replay=rp("margin-friction", ["margin", "pos"]), desc=f"{tag}: friction rows of an elliptic contact get efc.pos = efc.margin = includemargin; MuJoCo stores 0 and 0")
     else:
       ctx.prove(sess, "row/margin", cmp("==", a["margin"], row["margin"]), act, names=names, replay=rp("margin", ["margin", "pos"]), desc=f"{tag}: wrong margin")
-    ctx.prove(sess, "row/solref", And(*[cmp("==", x, y) for x, y in zip(a["solref"].c, row["solref"])]), act, names=names, replay=rp("solref", ["aref"]), desc=f"{tag}: wrong solref (solreffriction applies to the friction rows of elliptic contacts when non-zero)")
-    ctx.prove(sess, "row/solimp", And(*[cmp("==", x, y) for x, y in zip(a["solimp"].c, row["solimp"])]), act, names=names, replay=rp("solimp", ["D", "aref"]), desc=f"{tag}: wrong solimp")
+    gl = And(*[cmp("==", x, y) for x, y in zip(a["solref"].c, row["solref"])])
+    wn = And(nice, Or(*[Or(cmp(">=", arith("-", x, y), 0.02), cmp("<=", arith("-", x, y), -0.02)) for x, y in zip(a["solref"].c, row["solref"])]))
+    ctx.prove(sess, "row/solref", gl, act, names=names, replay=robust_replay(ctx, bg, core.zbool(gl), act, wn, base_rp("solref", ["D", "aref"])), desc=f"{tag}: wrong solref (solreffriction applies to the friction rows of elliptic contacts when non-zero)")
+    gl = And(*[cmp("==", x, y) for x, y in zip(a["solimp"].c, row["solimp"])])
+    wn = And(nice, Or(*[Or(cmp(">=", arith("-", x, y), 0.02), cmp("<=", arith("-", x, y), -0.02)) for x, y in zip(a["solimp"].c, row["solimp"])]))
+    ctx.prove(sess, "row/solimp", gl, act, names=names, replay=robust_replay(ctx, bg, core.zbool(gl), act, wn, base_rp("solimp", ["D", "aref"])), desc=f"{tag}: wrong solimp")
     ctx.prove(sess, "row/vel", cmp("==", a["vel"], exp["vel"]), act, names=names, replay=rp("vel", ["vel"]), desc=f"{tag}: efc.vel is not the J*qvel the Jacobian kernel stored for this row")
     wm = arith("%", exp["worldid"], kt.cell("opt_timestep").shape[0])
     ctx.prove(sess, "row/timestep+flags", And(cmp("==", a["timestep"], kt.pre("opt_timestep", wm)), cmp("==", a["opt_disableflags"], kt.args["opt_disableflags"])), act, names=names, replay=rp("ts", ["aref"]), desc=f"{tag}: wrong timestep / disable flags")
@@ -917,16 +1043,21 @@ def unit_efc_row(refsafe_on):
 def main(tier, seed, only=None):
   units = [("refcheck", unit_refcheck), unit_efc_row(True), unit_efc_row(False)]
   specs = [(False, True), (True, True)] + ([(True, False)] if tier == "thorough" else [])
-  U = int(__import__("os").environ.get("C05_U", 3 if tier == "quick" else 4))
+  U = 3  # nv / tendon-row bound (thorough deepens the specialisations, contact dimensions and weld rows instead)
   for b in SIMPLE:
     for sp in specs:
       units.append(unit_rows(b, sp, 2 if b == "_equality_tendon" and (sp[0] or tier == "quick") else U))
   for sp in specs:
     units.append(unit_ball(sp, max(U, 3)))
-    UT = 2 if sp[0] else U  # sparse connect / weld: dof chains of both bodies are enumerated (4^2 / 8^2 chain pairs)
+    # sparse connect / weld: the dof chains of both bodies are enumerated (4^2 chain pairs at bound 2, 8^2 at bound 3)
+    UT = 2 if (sp[0] or tier == "quick") else 3
     for r in range(3):
-      units.append(unit_rows("_equality_connect", sp, UT, only_rows=[r]))
-    for r in range(6):
+      units.append(unit_rows("_equality_connect", sp, UT if sp[0] else U, only_rows=[r]))
+    # weld: quick tier = first translational and first rotational row (the three rows of each block are built by the same
+    # unrolled code, differing in the component index); thorough = all six
+    for r in (range(6) if tier == "thorough" else (0, 3)):
+      if sp[0] and r >= 3:
+        continue  # sparse weld rotational rows (chain-pair cases x quaternion algebra) exceed the unit budget: not claimed
       units.append(unit_rows("_equality_weld", sp, UT, only_rows=[r]))
   UC = 6 if tier == "quick" else 10
   for ell in (False, True):
